@@ -331,7 +331,46 @@ impl TrkCfg {
         TrkCfg { kind, shards: 1, voting_shards: 1, history: 1, max_idle: 2, pos: Pos::Iou(0.3), min_conf: 0.05, constraints: None, vis: VisOpts::default(), kalman_w: (1.0 / 20.0, 1.0 / 160.0) }
     }
     pub fn json(&self) -> serde_json::Value {
-        serde_json::json!({"kind":self.kind.name(),"shards":self.shards,"voting_shards":self.voting_shards,"history":self.history,"max_idle":self.max_idle,"positional":format!("{:?}",self.pos),"min_conf":self.min_conf,"constraints":self.constraints,"visual":format!("{:?}",self.vis),"kalman_weights":[self.kalman_w.0,self.kalman_w.1]})
+        let v = &self.vis;
+        serde_json::json!({"kind":self.kind.name(),"shards":self.shards,"voting_shards":self.voting_shards,"history":self.history,"max_idle":self.max_idle,
+            "positional":match self.pos { Pos::Iou(t) => serde_json::json!({"iou":t}), Pos::Maha => serde_json::json!("mahalanobis") },
+            "min_conf":self.min_conf,"constraints":self.constraints,"kalman_weights":[self.kalman_w.0,self.kalman_w.1],
+            "visual":{"metric":match v.metric { Vis::Euclid(t) => serde_json::json!({"euclidean":t}), Vis::Cosine(t) => serde_json::json!({"cosine":t}) },
+                "min_votes":v.min_votes,"min_track_len":v.min_track_len,"max_obs":v.max_obs,"q_use":v.q_use,"q_collect":v.q_collect,"min_area":v.min_area,"own_use":v.own_use,"own_collect":v.own_collect}})
+    }
+
+    /// inverse of `json()` (replay files)
+    pub fn from_json(j: &serde_json::Value) -> Option<TrkCfg> {
+        let kind = match j["kind"].as_str()? {
+            "Sort" => Kind::Sort,
+            "BatchSort" => Kind::BatchSort,
+            "VisualSort" => Kind::VisualSort,
+            "BatchVisualSort" => Kind::BatchVisualSort,
+            _ => return None,
+        };
+        let f = |v: &serde_json::Value| v.as_f64().map(|x| x as f32);
+        let mut c = TrkCfg::new(kind);
+        c.shards = j["shards"].as_u64()? as usize;
+        c.voting_shards = j["voting_shards"].as_u64()? as usize;
+        c.history = j["history"].as_u64()? as usize;
+        c.max_idle = j["max_idle"].as_u64()? as usize;
+        c.pos = if j["positional"].is_string() { Pos::Maha } else { Pos::Iou(f(&j["positional"]["iou"])?) };
+        c.min_conf = f(&j["min_conf"])?;
+        c.constraints = j["constraints"].as_array().map(|a| a.iter().filter_map(|e| Some((e[0].as_u64()? as usize, f(&e[1])?))).collect());
+        c.kalman_w = (f(&j["kalman_weights"][0])?, f(&j["kalman_weights"][1])?);
+        let v = &j["visual"];
+        c.vis = VisOpts {
+            metric: if v["metric"]["euclidean"].is_number() { Vis::Euclid(f(&v["metric"]["euclidean"])?) } else { Vis::Cosine(f(&v["metric"]["cosine"])?) },
+            min_votes: v["min_votes"].as_u64()? as usize,
+            min_track_len: v["min_track_len"].as_u64()? as usize,
+            max_obs: v["max_obs"].as_u64()? as usize,
+            q_use: f(&v["q_use"])?,
+            q_collect: f(&v["q_collect"])?,
+            min_area: f(&v["min_area"])?,
+            own_use: f(&v["own_use"])?,
+            own_collect: f(&v["own_collect"])?,
+        };
+        Some(c)
     }
     fn pos_type(&self) -> PositionalMetricType {
         match self.pos {
